@@ -1,5 +1,266 @@
-"""Replay of counter-models against the real code (DESIGN 4).  Filled in incrementally."""
+"""Replay of counter-models against the real code (DESIGN 4).
+
+A failed obligation comes with a z3 model.  The arguments built by the contract's `params` are
+evaluated under that model to concrete Python / numpy values, the *real* function is run under
+/venv/bin/python, and the contract's outcome checks are generated again with the inputs pinned to
+the model and the symbolic body outcome replaced by the native one.  If one of those obligations
+fails (reals from native floats are compared with relative tolerance 1e-9) the violation is
+confirmed on the real code."""
+import json
+import os
+import subprocess
+from fractions import Fraction
+
+import z3
+
+from . import sym as S
+from .values import Arr, Obj, PyList, PyDict, Seq, Str
+from .interp import Ctx
+from . import prove
+
+NATIVE_PY = os.environ.get('LVC_NATIVE_PY', '/venv/bin/python')
+MAX_ELEMS = 4000
 
 
-def try_replay(world, kind, name, prop_id, ob, verdict):
-    return {'status': 'not-attempted', 'detail': 'no replay builder for %s' % name}
+class TooLarge(Exception):
+    pass
+
+
+def mval(m, t):
+    """Value of a scalar term under the model (with completion)."""
+    t = S.num(t) if not isinstance(t, (S.Cx, S.SumT)) else t
+    if isinstance(t, S.Cx):
+        return S.Cx(mval(m, t.re), mval(m, t.im))
+    if isinstance(t, S.SumT):
+        raise TooLarge('sum term in input')
+    if not S.is_z3(t):
+        return t
+    v = m.eval(t, model_completion=True)
+    v = z3.simplify(v)
+    if z3.is_int_value(v):
+        return v.as_long()
+    if z3.is_rational_value(v):
+        return Fraction(v.numerator_as_long(), v.denominator_as_long())
+    if z3.is_true(v):
+        return True
+    if z3.is_false(v):
+        return False
+    if z3.is_algebraic_value(v):
+        a = v.approx(20)
+        return Fraction(a.numerator_as_long(), a.denominator_as_long())
+    raise TooLarge('cannot evaluate %s' % v)
+
+
+def enc_scalar(v):
+    if v is None or isinstance(v, (bool, int, str)):
+        return v
+    if isinstance(v, Fraction):
+        return {'k': 'f', 'n': v.numerator, 'd': v.denominator}
+    if isinstance(v, S.Cx):
+        return {'k': 'c', 're': enc_scalar(S.frac(v.re) if not isinstance(v.re, Fraction) else v.re),
+                'im': enc_scalar(S.frac(v.im) if not isinstance(v.im, Fraction) else v.im)}
+    if isinstance(v, S.Inf):
+        return {'k': 'inf'}
+    raise TooLarge('scalar %r' % (v,))
+
+
+def concretize(m, v, pins, budget):
+    """-> JSON-able encoding of value v under model m; appends (term == value) pins."""
+    if v is None or isinstance(v, (bool, str)) or v is Ellipsis:
+        return {'k': 'e'} if v is Ellipsis else v
+    if isinstance(v, Str):
+        return '<str>'
+    if S.is_scalar(v) or isinstance(v, S.Inf):
+        if isinstance(v, S.Inf):
+            return {'k': 'inf'}
+        c = mval(m, v)
+        pin(pins, v, c)
+        return enc_scalar(c if not isinstance(c, Fraction) or True else c)
+    if isinstance(v, tuple):
+        return {'k': 't', 'v': [concretize(m, x, pins, budget) for x in v]}
+    if isinstance(v, PyList):
+        return {'k': 'l', 'v': [concretize(m, x, pins, budget) for x in v.items]}
+    if isinstance(v, PyDict):
+        return {'k': 'd', 'v': {str(k): concretize(m, x, pins, budget) for k, x in v.d.items()}}
+    if isinstance(v, slice):
+        return {'k': 's', 'v': [concretize(m, x, pins, budget) for x in (v.start, v.stop, v.step)]}
+    if isinstance(v, Arr):
+        shape = [mval(m, d) for d in v.shape]
+        for d, c in zip(v.shape, shape):
+            pin(pins, d, c)
+        n = 1
+        for d in shape:
+            n *= max(d, 0)
+        budget[0] -= n
+        if budget[0] < 0:
+            raise TooLarge('array too large for replay')
+        import itertools
+        flat = []
+        for idx in itertools.product(*[range(d) for d in shape]):
+            t = v.at(idx)
+            c = mval(m, t)
+            pin(pins, t, c)
+            if v.dtype == 'complex':
+                c = S.cx(c)
+            flat.append(enc_scalar(c))
+        return {'k': 'a', 'dtype': v.dtype, 'shape': shape, 'v': flat}
+    if isinstance(v, Obj):
+        return {'k': 'o', 'cls': v.cls.qualname,
+                'attrs': {k: concretize(m, x, pins, budget) for k, x in v.attrs.items()}}
+    if isinstance(v, Seq):
+        n = mval(m, v.length)
+        pin(pins, v.length, n)
+        if n > 50:
+            raise TooLarge('sequence too long')
+        return {'k': 'l', 'v': [concretize(m, v.elem(k), pins, budget) for k in range(n)]}
+    raise TooLarge('value %r' % (type(v).__name__,))
+
+
+def pin(pins, term, value):
+    if isinstance(term, S.Cx):
+        value = S.cx(value)
+        pin(pins, term.re, value.re)
+        pin(pins, term.im, value.im)
+        return
+    t = S.num(term)
+    if S.is_z3(t):
+        pins.append(t == S.z(value) if not z3.is_bool(t) else t == z3.BoolVal(bool(value)))
+
+
+def decode(world, x):
+    """Native outcome -> value domain (concrete)."""
+    if x is None or isinstance(x, (bool, int, str)):
+        return x
+    k = x['k']
+    if k == 'f':
+        if 'v' in x:
+            return Fraction(*float.fromhex(x['v']).as_integer_ratio())
+        return Fraction(x['n'], x['d'])
+    if k == 'c':
+        return S.Cx(decode(world, x['re']), decode(world, x['im']))
+    if k == 't':
+        return tuple(decode(world, v) for v in x['v'])
+    if k == 'l':
+        return PyList([decode(world, v) for v in x['v']])
+    if k == 'd':
+        return PyDict({kk: decode(world, v) for kk, v in x['v'].items()})
+    if k == 's':
+        return slice(*[decode(world, v) for v in x['v']])
+    if k == 'e':
+        return Ellipsis
+    if k == 'a':
+        vals = [decode(world, v) for v in x['v']]
+        shape = tuple(x['shape'])
+        dt = x['dtype']
+        strides = []
+        n = 1
+        for d in reversed(shape):
+            strides.append(n)
+            n *= d
+        strides = list(reversed(strides))
+        from .values import select
+
+        def fn(idx, vals=vals, strides=strides, dt=dt):
+            flat = 0
+            for i, s in zip(idx, strides):
+                flat = S.add(flat, S.mul(i, s))
+            if not vals:
+                return S.Cx(0, 0) if dt == 'complex' else 0
+            return select(vals, flat)
+        return Arr.from_fn(shape, dt, fn)
+    if k == 'o':
+        try:
+            cls = world.repo.klass(x['cls'])
+        except Exception:
+            return Opaque(x['cls'])
+        return Obj(cls, {kk: decode(world, v) for kk, v in x['attrs'].items()})
+    if k == 'inf':
+        return S.INF
+    if k == 'nonfinite':
+        return Opaque('nonfinite ' + x['v'])
+    return Opaque(str(x.get('v')))
+
+
+class Opaque:
+    def __init__(self, what):
+        self.what = what
+
+    def __repr__(self):
+        return '<opaque %s>' % self.what
+
+
+def run_native(function, args, order, repo_root):
+    req = json.dumps({'function': function, 'args': args, 'order': order})
+    env = dict(os.environ)
+    env['PYTHONPATH'] = repo_root
+    runner = os.path.join(os.path.dirname(os.path.dirname(os.path.abspath(__file__))), 'native', 'replay_runner.py')
+    p = subprocess.run([NATIVE_PY, '-W', 'ignore', runner], input=req, capture_output=True, text=True, env=env,
+                       timeout=120)
+    if p.returncode != 0:
+        raise RuntimeError('native runner failed: %s' % p.stderr[-500:])
+    return json.loads(p.stdout)
+
+
+def try_replay(world, kind, name, prop_id, ob, verdict, pr):
+    if kind != 'function' or pr.replay_state is None or verdict.z3model is None:
+        return {'status': 'not-applicable', 'detail': 'client lemma or no model'}
+    contract = world.contracts[name]
+    func = world.repo.function(contract.qualname)
+    env0, expected = pr.replay_state
+    m = verdict.z3model
+    pins = []
+    try:
+        budget = [MAX_ELEMS]
+        args = {k: concretize(m, v, pins, budget) for k, v in env0.items()}
+    except TooLarge as e:
+        return {'status': 'not-attempted', 'detail': str(e)}
+    order = prove.param_names(func)
+    try:
+        nat = run_native(contract.qualname, args, order, world.repo.root)
+    except Exception as e:
+        return {'status': 'error', 'detail': str(e)}
+    # rebuild the outcome in the value domain
+    if nat['kind'] == 'raise':
+        out = prove.Outcome('raise', exc=nat['exc'])
+        out.msg = nat.get('msg')
+    else:
+        out = prove.Outcome('return', decode(world, nat['value']))
+    env = dict(env0)
+    for k in order:
+        if k in nat.get('changed', []):
+            env[k] = decode(world, nat['after'][k])
+        if nat['kind'] == 'return' and k in nat.get('aliases', []):
+            out.value = env[k]
+    if func.name == '__init__' and func.cls is not None:
+        env[order[0]] = decode(world, nat['after'][order[0]])
+    out.env = env
+    ctx = Ctx(world, [])
+    ctx.pc = [p for p in ob.pc] + pins
+    ctx.counter = {'replay': 1}
+    writes = [('param:' + k, 'native run changed this argument') for k in nat.get('changed', [])
+              if not (func.name == '__init__' and k == order[0])]
+    S.TOL = Fraction(1, 10 ** 9)
+    try:
+        ctx.verifying = contract.qualname
+        prove.check_outcome(ctx, contract, env0, env, expected, out, writes)
+        bad = []
+        for o2 in ctx.obligations:
+            v2 = prove.discharge(o2, 10000)
+            if v2.status == 'failed':
+                bad.append({'obligation': o2.name, 'skolems': {k: v for k, v in (v2.model or {}).items()
+                                                               if not any(k == str(p.arg(0)) for p in pins
+                                                                          if p.num_args() == 2)}})
+    except Exception as e:
+        return {'status': 'error', 'detail': 'check phase: %s: %s' % (type(e).__name__, e), 'inputs': args,
+                'native': {k: nat[k] for k in ('kind', 'exc', 'msg') if k in nat}}
+    finally:
+        S.TOL = None
+    res = {'inputs': args, 'native_outcome': {k: nat.get(k) for k in ('kind', 'exc', 'msg', 'value', 'changed')},
+           'function': contract.qualname}
+    if bad:
+        res['status'] = 'confirmed'
+        res['failed_on_real_code'] = bad[:10]
+        res['same_obligation'] = any(b['obligation'] == ob.name for b in bad)
+    else:
+        res['status'] = 'not-confirmed'
+    return res
